@@ -355,6 +355,11 @@ pub fn build_prestates() -> (Vec<Arc<PreState>>, Vec<String>) {
         build_prestate("S1260", fill_ops(c), false, vec![], Persist::FlushAll, (cu, 0)),
         build_prestate("S1260+U1259mixed-saved", fill_ops(c), true, mixed_ops(c - 1), Persist::SaveAll, (cu, cu - 1)),
         build_prestate("S1260+U1260mixed-saved", fill_ops(c), true, mixed_ops(c), Persist::SaveAll, (cu, cu)),
+        // the update section is placed at the next 64 KiB boundary behind the sorted section
+        // (0x28 + 18 n bytes): 3639 entries end 6 bytes past a boundary, 3640 entries 24 bytes —
+        // two pending updates (overwrite, tombstone) sit behind each
+        build_prestate("S3639+U2mixed-saved", fill_ops(3639), true, mixed_ops(2), Persist::SaveAll, (3639, 2)),
+        build_prestate("S3640+U2mixed-saved", fill_ops(3640), true, mixed_ops(2), Persist::SaveAll, (3640, 2)),
     ];
     for b in built {
         match b {
@@ -1573,6 +1578,7 @@ pub fn run(tier: Tier, seed: u64) -> i32 {
             "empty" | "U1260-mem" | "S1260" | "S1260+U1260mixed-saved" => tier.pick(3, 4),
             "U1260-saved" => tier.pick(3, 3),
             "U1259-saved" => tier.pick(2, 4),
+            "S3639+U2mixed-saved" | "S3640+U2mixed-saved" => tier.pick(1, 2),
             _ => tier.pick(2, 3), // U1259-mem, S1260+U1259mixed-saved
         };
         let st = explore(&s, &SeqBounds::depth(depth).with_budget(left), &rep);
